@@ -504,3 +504,21 @@ func keyOfFunction(fn *ssa.Function) string {
 	}
 	return fn.String()
 }
+
+// closedWorld: interfaces of the filter AST are only implemented inside the repository;
+// store-side interfaces (Entity, EntityStrategy, Constraint ...) are meant to be implemented by users.
+func (e *Engine) closedWorld(t types.Type) bool {
+	n, ok := unalias(t).(*types.Named)
+	if !ok || n.Obj().Pkg() == nil {
+		return false
+	}
+	p := n.Obj().Pkg().Path()
+	if p != repoMod+"/ast" {
+		return false
+	}
+	switch n.Obj().Name() {
+	case "Symbols", "SymbolTypes", "SetCursor", "SeekableSetCursor", "TypeSeekableSetCursor", "Visitor", "SortField":
+		return false
+	}
+	return len(e.implementors(t)) > 0
+}
